@@ -15,6 +15,8 @@ Verdict = the property evaluated on the IMPLEMENTATION's output:
                            `Close()`/`Flush()` of its own connection (otherwise `-`: outside the hypothesis)
   viol:teardown-count      `Disconnected()` not called exactly once on a closed connection with a handler
   viol:write-after-close   a write/CloseWith after a returned `Close()` did not report ErrClosedConn
+  viol:write-error-not-closed  a write/flush failed (any error class) but, with the read side still parked, the
+                           connection is not closed / the teardown has not run exactly once
   viol:not-closed          a close trigger existed but the connection is not reported closed
   viol:panic-escaped       a handler panic left the read loop
 -/
@@ -25,7 +27,9 @@ def parseApi (s : String) : Option Api :=
   match s with
   | "ck" => some (.close true) | "cu" => some (.close false) | "cw" => some .closeWith
   | "wp" => some .writeFlush | "wr" => some .writeFlush | "bp" => some .buffer | "bl" => some .buffer
-  | "fl" => some .flush | "fn" => some .failNet | "gc" => some .guardedClose
+  | "fl" => some .flush | "gc" => some .guardedClose
+  | "fn" => some (.failNet .generic) | "fnp" => some (.failNet .closedPipe) | "fne" => some (.failNet .epipe)
+  | "fnr" => some (.failNet .connReset) | "fnc" => some (.failNet .netClosed) | "fnt" => some (.failNet .timeout)
   | _ => if s.startsWith "sh" then (s.drop 2).toString.toNat?.map Api.setHandler else none
 
 def parseApis (s : String) : Option (List Api) :=
@@ -105,14 +109,15 @@ def scn (hs : List Handler) (active : Option Nat) (events : List String) (impl :
   let c0 := mkConn hs active [mains.map (Act.api · true), [.readLoop script]]
   let fuel := fuelOf c0
   let o := runEvents fuel events ⟨[], c0, false⟩
-  -- the harness ends every scenario by closing the input and joining the read loop
+  -- snapshot with the read side still parked, then the harness ends the scenario by closing the input
+  let pre := s!"{o.c.disc.length}/{b2s o.c.cancelled}"
   let fin := if o.hung then none else (runUntilLen fuel o.c 1 0)
   match fin with
   | none =>
     -- the model deadlocks; it does so only when a Disconnected() body calls Close()/Flush()
     ("hang", if impl = "hang" then (if handlersTouchy hs then "-" else "viol:deadlock") else "-")
   | some c =>
-    let out := s!"res={if o.res.isEmpty then "-" else ",".intercalate o.res} disc={showDisc c.disc} handled={c.handled} panics={c.panics} closed={b2s c.cancelled} escaped=0"
+    let out := s!"res={if o.res.isEmpty then "-" else ",".intercalate o.res} pre={pre} disc={showDisc c.disc} handled={c.handled} panics={c.panics} closed={b2s c.cancelled} escaped=0"
     let verdict :=
       if impl = "hang" then "viol:deadlock" else
       let get := fun (k : String) => ((impl.splitOn " ").findSome? fun kv => match kv.splitOn "=" with
@@ -121,10 +126,16 @@ def scn (hs : List Handler) (active : Option Nat) (events : List String) (impl :
       let idisc := if get "disc" = "-" then 0 else ((get "disc").splitOn ",").length
       -- position of the first `Close`/`CloseUnknown` call (a returned Close) among the main events
       let mainEvs := events.filter (·.startsWith "m:")
-      let firstClose := mainEvs.findIdx (fun e => e = "m:ck" || e = "m:cu")
+      let firstClose := Nat.min (mainEvs.findIdx (fun e => e = "m:ck" || e = "m:cu")) (ires.findIdx (· = "other"))
+      -- a write/flush error (any class) on the main goroutine must have closed the connection and torn the
+      -- session down BEFORE the read side does anything (snapshot `pre`)
+      let wroteErr := (List.range mainEvs.length).any fun i =>
+        ["m:wp", "m:wr", "m:fl"].contains (mainEvs.getD i "") && ires.getD i "" = "other"
+      let preOK := get "pre" = (if active.isSome then "1/1" else "0/1") || !active.isSome && (get "pre").endsWith "/1"
       let lateBad := (List.range mainEvs.length).any fun i =>
         i > firstClose && ["m:wp", "m:wr", "m:bp", "m:bl", "m:cw"].contains (mainEvs.getD i "") && ires.getD i "" != "closed"
       if get "escaped" != "0" then "viol:panic-escaped"
+      else if wroteErr && !preOK then "viol:write-error-not-closed"
       else if get "closed" != "1" then "viol:not-closed"
       else if active.isSome && idisc != 1 then "viol:teardown-count"
       else if idisc > 1 then "viol:teardown-count"
